@@ -19,6 +19,7 @@ import (
 	"crypto/sha256"
 	"encoding/hex"
 	"encoding/json"
+	"errors"
 	"fmt"
 	"io"
 	"net/http"
@@ -516,6 +517,19 @@ func (y *yieldingWriter) Write(p []byte) (int, error) {
 	return y.h.Write(p)
 }
 
+// refusingWriter accepts left bytes and then fails every Write (accepting the part that still fits).
+type refusingWriter struct{ left int }
+
+func (w *refusingWriter) Write(p []byte) (int, error) {
+	if len(p) <= w.left {
+		w.left -= len(p)
+		return len(p), nil
+	}
+	n := w.left
+	w.left = 0
+	return n, errors.New("destination refuses further bytes")
+}
+
 func record(g int, o op, inputID, phase string, in any, yw *yieldingWriter) event {
 	hs := sha256.New()
 	yw.h = hs
@@ -611,6 +625,19 @@ func run(r *mon.Run) {
 		for k, other := range all {
 			record(0, other, "interleave", "interleave-other", other.build(r.Rand("order-c", k)), &yieldingWriter{})
 			record(0, o, "interleave", "interleave", in, &yieldingWriter{})
+		}
+		// (c') ... and with unrelated calls that FAIL part-way (destination refusing further bytes after k): whatever a
+		// failed call leaves behind in the library (pooled buffers, half-drained encoders) must not reach a later output
+		fg := r.Rand("order-c-fail/"+o.name, oi)
+		for k, other := range all {
+			if (k+oi)%3 != 0 && !r.Thorough {
+				continue
+			}
+			fin := other.build(r.Rand("order-c", k))
+			for _, after := range []int{mon.Pick(fg, []int{0, 1, 2, 9, 10}), 11 + fg.Intn(40), 60 + fg.Intn(600)} {
+				other.run(fin, &refusingWriter{left: after}) // (its verdict belongs to C19)
+				record(0, o, fmt.Sprintf("after-failed-%s@%d", other.name, after), "after-failed-call", in, &yieldingWriter{})
+			}
 		}
 	}
 
